@@ -4,6 +4,7 @@ CONSTANTS
   MaxSock = 2
   MaxEv = 1
   MaxUnsol = 0
+  Limit = 1
   Timed = FALSE
 INVARIANT OwnResponse
 INVARIANT OwnResponsePending
